@@ -406,6 +406,9 @@ def declare(config, st, in_prefix=False):
             kw['route_name'] = st['route']
         if st.get('method'):
             kw['request_method'] = st['method']
+            if st['method'].startswith('!'):
+                from pyramid.config import not_
+                kw['request_method'] = not_(st['method'][1:])
         if st.get('param'):
             kw['request_param'] = st['param']
         if st.get('vp') is not None:
